@@ -432,6 +432,86 @@ def acquire_around_rekey(v):
     return n
 
 
+def acquire_multihomed(v):
+    """Two connections towards the SAME peer address from two local addresses (the configuration is keyed by the address pair): an ACQUIRE of the second
+    connection's policy is negotiated for THAT connection - from its local address, with its entry's protocol and selectors - also while an IKE_SA of the
+    first connection exists, in either order; the IKE_SA of the first connection is not disturbed and further ACQUIREs of each connection re-use their own."""
+    import copy, probes
+    from ipaddress import ip_address
+    n = 0
+    alt = '192.168.5.1'
+    for order in ((1, 2), (2, 1)):
+        a1 = wd.connection_dict('A', 'B', dpd=50, lifetime=500)
+        a2 = copy.deepcopy(a1)
+        a2['my_addr'] = alt
+        a2['protect'] = [dict(a2['protect'][0], index=21, ipsec_proto='ah', my_subnet='10.5.1.0/24', peer_subnet='10.5.2.0/24')]
+        a2['protect'][0].pop('encr', None)
+        b1 = wd.connection_dict('B', 'A', dpd=50, lifetime=500)
+        b2 = copy.deepcopy(b1)
+        b2['peer_addr'] = alt
+        b2['protect'] = [dict(b2['protect'][0], index=22, ipsec_proto='ah', my_subnet='10.5.2.0/24', peer_subnet='10.5.1.0/24')]
+        b2['protect'][0].pop('encr', None)
+        w = wd.World(conf={'A': {'A-B': a1, 'A2-B': a2}, 'B': {'B-A': b1, 'B-A2': b2}}, seed=common.SEED)
+        me = {1: wd.addr_of('A'), 2: alt}
+        pe = wd.addr_of('B')
+        idx = {1: a1['protect'][0]['index'], 2: 21}
+        sel = {1: (me[1], pe), 2: ('10.5.1.7', '10.5.2.9')}
+
+        def acquire(c):
+            return w.acquire('A', raw=fakekernel.enc_acquire(me[c], pe, sel[c][0], sel[c][1], 0, 0, 6, (idx[c] << 3) | 1))
+
+        def run(c, m):
+            """drive the exchange started by datagram m of connection c to its end; returns the protected requests A sent (decoded)"""
+            sent, cur, at = [], m, 'A'
+            while cur is not None:
+                if at == 'A':
+                    sent.append(bytes(cur))
+                    cur, at = w.guarded('B', 'dispatch_message', w.ctl['B'].dispatch_message, bytes(cur), ip_address(pe), ip_address(me[c])), 'B'
+                else:
+                    cur, at = w.guarded('A', 'dispatch_message', w.ctl['A'].dispatch_message, bytes(cur), ip_address(me[c]), ip_address(pe)), 'A'
+            return sent
+        try:
+            for step, c in enumerate(order + order):
+                n += 1
+                tbl_before = [(str(x.my_addr), x.state.name, len(x.child_sas)) for x in w.ctl['A'].ike_sas]
+                m = acquire(c)
+                if m is None:
+                    v.violation(f'connections {order} towards one peer from two local addresses: the ACQUIRE of connection {c} (local address {me[c]}, index {idx[c]}) is not '
+                                f'negotiated (IKE_SAs held: {tbl_before})', {'order': order, 'step': step}, signature={'component': 'acquire:multihomed', 'what': 'ignored'})
+                    break
+                first = step < 2
+                if (W.dec_header(bytes(m))['xchg'] == W.IKE_SA_INIT) != first:
+                    v.violation(f'connections {order}: ACQUIRE no. {step + 1} (connection {c}) {"does not start an IKE_SA of its own" if first else "does not re-use the IKE_SA of its connection"}',
+                                {'order': order, 'step': step, 'table': tbl_before}, signature={'component': 'acquire:multihomed', 'what': 'reuse'})
+                    break
+                sent = run(c, m)
+                mine = [x for x in w.ctl['A'].ike_sas if str(x.my_addr) == me[c]]
+                if len(mine) != 1 or mine[0].state.name != 'ESTABLISHED' or len(mine[0].child_sas) != (1 if first else 2):
+                    v.violation(f'connections {order}: after ACQUIRE no. {step + 1} the IKE_SA of connection {c} is {[(x.state.name, len(x.child_sas)) for x in mine]}',
+                                {'order': order, 'step': step}, signature={'component': 'acquire:multihomed', 'what': 'state'})
+                    break
+                inner = W.dec_message(sent[-1], probes.keys_of(mine[0].my_crypto))['inner']
+                prop = next(x for x in inner if x['t'] == W.SA)['proposals'][0]
+                tsi = next(x for x in inner if x['t'] == W.TSI)['ts']
+                want_proto = 3 if c == 1 else 2
+                net = ipaddress.ip_network(me[1] + '/32' if c == 1 else '10.5.1.0/24')
+                lo, hi = ipaddress.ip_address(tsi[-1]['saddr']), ipaddress.ip_address(tsi[-1]['eaddr'])
+                if prop['proto'] != want_proto or not (net[0] <= lo <= hi <= net[-1]):
+                    v.violation(f'connections {order}: the request for connection {c} carries protocol {prop["proto"]} / TSi {lo}-{hi}, the entry says {want_proto} / {net}',
+                                {'order': order, 'step': step}, signature={'component': 'acquire:multihomed', 'what': 'content'})
+                    break
+                others = [(str(x.my_addr), x.state.name, len(x.child_sas)) for x in w.ctl['A'].ike_sas if str(x.my_addr) != me[c]]
+                if others != [t for t in tbl_before if t[0] != me[c]]:
+                    v.violation(f'connections {order}: the ACQUIRE of connection {c} disturbed the other connection\'s IKE_SA: {others}', {'order': order, 'step': step},
+                                signature={'component': 'acquire:multihomed', 'what': 'other'})
+                    break
+        except wd.Escape as ex:
+            v.violation(f'acquire with two local addresses {order}: {ex}', {}, signature={'component': 'acquire:multihomed', 'what': 'escape'})
+        finally:
+            w.close()
+    return n
+
+
 def cfg(max_steps):
     return ('SPECIFICATION Spec\nCONSTANTS\n Configs = {{1}, {1, 2}, {3}, {1, 2, 3}, {4, 5}, {1, 2, 3, 4, 5}}\n MaxSteps = %d\nINVARIANT AfterStart\nINVARIANT AcquireMaps\nPROPERTY AfterStop\n'
             'VIEW View\nCHECK_DEADLOCK FALSE\n' % max_steps)
@@ -463,7 +543,7 @@ def run(tier, replay=None):
         if err:
             v.violation(err, {'behaviour': [s[0] for s in steps[:done + 1]]}, signature={'component': 'spd', 'what': err.split(':')[0][:40]})
     n_acq = acquire_mapping(v, tier)
-    n_busy = acquire_while_busy(v) + acquire_unknown_index(v) + acquire_around_rekey(v)
+    n_busy = acquire_while_busy(v) + acquire_unknown_index(v) + acquire_around_rekey(v) + acquire_multihomed(v)
     # Ike.tla CtlAcquire (queue on the IKE_SA with that peer / start one): every divergence right after an ACQUIRE in the replayed behaviours belongs here
     from checks import ikeprop
     ike_cov = dict(ikeprop.run(v, ['init'] if tier == 'quick' else ['init', 'estab', 'init3'], limit=700 if tier == 'quick' else None,
